@@ -790,6 +790,8 @@ class Ev:
         self.mismatches = []  # (text, message)
         self.depth = 0
         self.switch_results = []
+        self.exact_roots = False   # square roots of rationals in prime normal form; double literals nearest to
+        #                            sqrt(k) read as sqrt(k)
         self.inline_calls = False  # follow call statements into functions of the same TU
         self.expand = False    # distribute products of sums instead of atomising the factors
         self.lenient = False   # skip statements that cannot be interpreted (their targets become unknown)
@@ -853,6 +855,9 @@ class Ev:
         return Poly.atom(("sum", p.canon()))
 
     def mul(self, a, b, where=""):
+        if getattr(self, "exact_roots", False):
+            return fold_nums(a.mul_raw(b)) if (self.expand or a.single() or b.single()) else \
+                fold_nums(self.atomise(a, where).mul_raw(self.atomise(b, where)))
         if getattr(self, "factor_sums", False) and not (a.is_const() or b.is_const()):
             # keep every sum as one factor (for ratios such as (n-1)/(m-1), which must cancel as wholes)
             return self.atomise(a, where).mul_raw(self.atomise(b, where))
@@ -865,7 +870,8 @@ class Ev:
         if not p.t:
             raise AnalysisError("division by literal zero in %s" % where)
         (m, c), = p.t.items()
-        return Poly({_mono({a: -e for a, e in m}): 1 / c})
+        r = Poly({_mono({a: -e for a, e in m}): 1 / c})
+        return fold_nums(r) if getattr(self, "exact_roots", False) else r
 
     def powc(self, p, e, where=""):
         p = self.atomise(p, where)
@@ -879,6 +885,14 @@ class Ev:
         r = _rat_root(c, e)
         if r is not None:
             return Poly({_mono(d): r})
+        if self.exact_roots and c > 0:
+            # c**e over the primes of c: a unique normal form in Q(sqrt(2), sqrt(3), ...)
+            cc = Fr(1)
+            for prime, mult in _factor(c.numerator).items():
+                d[("num", Fr(prime))] = d.get(("num", Fr(prime)), 0) + mult * e
+            for prime, mult in _factor(c.denominator).items():
+                d[("num", Fr(prime))] = d.get(("num", Fr(prime)), 0) - mult * e
+            return fold_nums(Poly({_mono(d): cc}))
         d[("num", c)] = d.get(("num", c), 0) + e
         return Poly({_mono(d): Fr(1)})
 
@@ -888,13 +902,21 @@ class Ev:
         if k in ("ImplicitCastExpr", "ParenExpr", "CStyleCastExpr", "ConstantExpr"):
             ks = cfacts.kids(n)
             if k == "CStyleCastExpr" and _bt(n) == "int" and _bt(ks[0]) not in INT_TYPES:
-                return Poly.atom(("fn", "(int)", (self.expr(ks[0], env).canon(),)))
+                v = self.expr(ks[0], env)
+                x = numeric_value(v)
+                if x is not None:
+                    return Poly.const(int(x))  # truncation of a number
+                return Poly.atom(("fn", "(int)", (v.canon(),)))
             return self.expr(ks[0], env)
         if k == "ImaginaryLiteral":
             return self.mul(self.expr(cfacts.kids(n)[0], env), Poly.atom(IMAG))
         if k == "IntegerLiteral":
             return Poly.const(int(n["value"]))
         if k == "FloatingLiteral":
+            if self.exact_roots:
+                r = _sqrt_literal(n["value"])
+                if r is not None:
+                    return self.powc(Poly.const(r), Fr(1, 2))
             return Poly.const(Fr(n["value"]))
         if k == "DeclRefExpr":
             return self.read_var(n, env)
@@ -1068,6 +1090,9 @@ class Ev:
             return env["mem"][key]
         if role in env.get("elem_values", ()):
             return env["elem_values"][role]  # every element of this input array stands for one given value
+        tk = (role.split("@")[0], (off + idx).canon())
+        if tk in env.get("mem_by_type", ()):
+            return env["mem_by_type"][tk]  # contents of a struct's array filled by another function (set-up)
         if role.split("@")[0] in env.get("zero_roots", ()) and (off + idx).is_const():
             return Poly()  # element of a zero-initialised buffer that has not been written
         return Poly.atom(("elem", role, (off + idx).canon()))
@@ -1633,6 +1658,64 @@ class Ev:
 
 IMAG = ("sym", "<I>")
 MISSING = object()
+
+
+def _factor(n):
+    out, p = {}, 2
+    n = int(n)
+    while p * p <= n:
+        while n % p == 0:
+            out[p] = out.get(p, 0) + 1
+            n //= p
+        p += 1 if p == 2 else 2
+    if n > 1:
+        out[n] = out.get(n, 0) + 1
+    return out
+
+
+def fold_nums(p):
+    """whole powers of ('num', c) atoms go into the coefficient: sqrt(3)*sqrt(3) = 3"""
+    out = {}
+    for m, c in p.t.items():
+        d = {}
+        for a, e in m:
+            if a[0] == "num":
+                k = e.numerator // e.denominator  # floor
+                if k:
+                    c = c * (a[1] ** k if k > 0 else 1 / (a[1] ** (-k)))
+                e = e - k
+            if e != 0:
+                d[a] = d.get(a, 0) + e
+        mm = _mono(d)
+        out[mm] = out.get(mm, 0) + c
+    return Poly(out)
+
+
+def _sqrt_literal(text):
+    """a double literal that is the double nearest to sqrt(k), 2 <= k <= 64 -> k"""
+    import math
+    try:
+        v = float(text)
+    except ValueError:
+        return None
+    for k in range(2, 65):
+        r = math.sqrt(k)
+        if r != int(r) and v == r:
+            return Fr(k)
+    return None
+
+
+def numeric_value(p):
+    """float value of a polynomial made of numbers and roots of numbers only, else None"""
+    tot = 0.0
+    for m, c in p.t.items():
+        x = float(c)
+        for a, e in m:
+            if a[0] != "num":
+                return None
+            x *= float(a[1]) ** float(e)
+        tot += x
+    return tot
 
 
 def log_of_power(p):
